@@ -241,7 +241,8 @@ def conforms(v, T):
         return isinstance(v, VList) and (v.elem == T[1] or v.elem == ('any',) or T[1] == ('any',))
     if k == 'tuple':
         return isinstance(v, VTuple) and len(v.items) == len(T[1]) and \
-            all(conforms(a, t) for a, t in zip(v.items, T[1]))
+            all((any(conforms(x, t) for _, x in a.alts) if isinstance(a, VU) else conforms(a, t))
+                for a, t in zip(v.items, T[1]))     # coerce() turns the non-fitting alternatives into obligations
     if k == 'union':
         return any(conforms(v, t) for t in T[1])
     if k == 'rec':
